@@ -43,6 +43,7 @@ type sym struct {
 	kind string // "str" (Coq sexpr text), "list" (Coq lexpr text), "target" (decoded struct var)
 	text string
 	typ  string // for target: OSM | Change
+	idx  int    // for "len" (len(<ids parameter idx>)) and "acc" (func(i) int64 { return int64(<ids parameter idx>[i]) })
 }
 
 type ctx struct {
@@ -57,6 +58,9 @@ type ctx struct {
 	guards  map[string]string // field -> "Some (op, n)"
 	ret     string
 	inOpt   bool // translating an option's apply method (o.n, o.t allowed)
+	helper  bool   // translating the body of an inlined unexported helper
+	hret    string // its returned string expression
+	depth   int
 }
 
 func q(s string) string { return tr.CoqString(s) }
@@ -155,6 +159,18 @@ func (c *ctx) strExpr(e ast.Expr) string {
 			return "(ESprintf " + q(f) + " " + args + ")"
 		}
 		if ce, ok := isCall(e, "strings", "Join"); ok {
+			if cl, ok := ce.Args[0].(*ast.CompositeLit); ok {
+				// strings.Join([]string{a, b, c}, sep)  ==  a + sep + b + sep + c
+				sep, ok := c.constString(ce.Args[1])
+				if !ok || len(cl.Elts) == 0 {
+					fail(c.p, e, "strings.Join of a literal list: separator not constant / empty list")
+				}
+				r := c.strExpr(cl.Elts[len(cl.Elts)-1])
+				for i := len(cl.Elts) - 2; i >= 0; i-- {
+					r = "(EConcat " + c.strExpr(cl.Elts[i]) + " (EConcat (ELit " + q(sep) + ") " + r + "))"
+				}
+				return r
+			}
 			id, ok := ce.Args[0].(*ast.Ident)
 			if !ok || c.env[id.Name].kind != "list" {
 				fail(c.p, e, "strings.Join of something that is not a tracked []string")
@@ -189,26 +205,23 @@ func (c *ctx) strExpr(e ast.Expr) string {
 			}
 			return "(EFixed " + c.strExpr(ce.Args[0]) + " " + prec + ")"
 		}
-		// a call of an unexported package-level helper whose body is a single return: inline it
-		if id, ok := x.Fun.(*ast.Ident); ok && !ast.IsExported(id.Name) {
-			if fd := c.decls[id.Name]; fd != nil && fd.Recv == nil && fd.Body != nil && len(fd.Body.List) == 1 {
-				if rs, ok := fd.Body.List[0].(*ast.ReturnStmt); ok && len(rs.Results) == 1 {
-					var names []string
-					for _, f := range fd.Type.Params.List {
-						for _, n := range f.Names {
-							names = append(names, n.Name)
-						}
-					}
-					if len(names) != len(x.Args) {
-						fail(c.p, e, "helper %s arity", id.Name)
-					}
-					inner := &ctx{p: c.p, decls: c.decls, params: map[string]int{}, env: map[string]sym{}}
-					for i, n := range names {
-						inner.env[n] = sym{kind: "str", text: c.strExpr(x.Args[i])}
-					}
-					return inner.strExpr(rs.Results[0])
-				}
+		// strconv.Itoa(x), strconv.FormatInt(int64(x), 10): the same text as Sprintf("%d", x)
+		if ce, ok := isCall(e, "strconv", "Itoa"); ok && len(ce.Args) == 1 {
+			return "(ESprintf \"%d\" (ACons " + c.strExpr(ce.Args[0]) + " ANil))"
+		}
+		if ce, ok := isCall(e, "strconv", "FormatInt"); ok && len(ce.Args) == 2 {
+			if z, ok := c.constInt(ce.Args[1]); !ok || z != "10" {
+				fail(c.p, e, "FormatInt base is not 10")
 			}
+			arg := ce.Args[0]
+			if conv, ok := isFunc(arg, "int64"); ok && len(conv.Args) == 1 {
+				arg = conv.Args[0]
+			}
+			return "(ESprintf \"%d\" (ACons " + c.strExpr(arg) + " ANil))"
+		}
+		// a call of an unexported helper of the package (function or Datasource method): inline it
+		if r, ok := c.inlineCall(x); ok {
+			return r
 		}
 		// o.t.UTC().Format(layout) / o.t.Format(layout)
 		if c.inOpt {
@@ -236,6 +249,284 @@ func (c *ctx) strExpr(e ast.Expr) string {
 	}
 	fail(c.p, e, "unsupported string expression %s", render(c.p, e))
 	return ""
+}
+
+// inlineCall translates a call of an unexported helper (package function, or method on ds other
+// than baseURL/getFromAPI) by translating the helper's body with its parameters bound to the
+// arguments: a caller's parameter is passed through as that parameter, len(ids) and an index
+// accessor func(i int) int64 { return int64(ids[i]) } are kept symbolic, everything else is a
+// string expression.  The helper must return a string (or a string and a nil error).
+func (c *ctx) inlineCall(x *ast.CallExpr) (string, bool) {
+	var fd *ast.FuncDecl
+	switch f := x.Fun.(type) {
+	case *ast.Ident:
+		if ast.IsExported(f.Name) {
+			return "", false
+		}
+		fd = c.decls[f.Name]
+		if fd != nil && fd.Recv != nil {
+			fd = nil
+		}
+	case *ast.SelectorExpr:
+		id, ok := f.X.(*ast.Ident)
+		if !ok || id.Name != "ds" || ast.IsExported(f.Sel.Name) || f.Sel.Name == "baseURL" || f.Sel.Name == "getFromAPI" {
+			return "", false
+		}
+		fd = c.decls["Datasource."+f.Sel.Name]
+		if fd != nil && (len(fd.Recv.List[0].Names) != 1 || fd.Recv.List[0].Names[0].Name != "ds") {
+			fail(c.p, x, "helper method %s does not name its receiver ds", f.Sel.Name)
+		}
+	}
+	if fd == nil || fd.Body == nil {
+		return "", false
+	}
+	if c.depth > 4 {
+		fail(c.p, x, "helper calls nested too deeply")
+	}
+	var names []string
+	for _, f := range fd.Type.Params.List {
+		for _, n := range f.Names {
+			names = append(names, n.Name)
+		}
+	}
+	if len(names) != len(x.Args) || fd.Type.Params.List == nil {
+		fail(c.p, x, "helper %s: arity / variadic call not modelled", fd.Name.Name)
+	}
+	inner := &ctx{p: c.p, decls: c.decls, params: map[string]int{}, pkinds: c.pkinds, env: map[string]sym{},
+		guards: map[string]string{}, helper: true, inOpt: false, depth: c.depth + 1}
+	for i, n := range names {
+		arg := x.Args[i]
+		if tv, ok := c.p.Info.Types[arg]; ok && tv.Type != nil && tv.Type.String() == "context.Context" {
+			continue
+		}
+		if id, ok := arg.(*ast.Ident); ok {
+			if pi, ok := c.params[id.Name]; ok {
+				inner.params[n] = pi
+				continue
+			}
+			if v, ok := c.env[id.Name]; ok && (v.kind == "len" || v.kind == "acc" || v.kind == "list") {
+				inner.env[n] = v
+				continue
+			}
+		}
+		if la, ok := c.lenOf(arg); ok {
+			if id, ok := la.(*ast.Ident); ok {
+				if pi, ok := c.params[id.Name]; ok && c.pkinds[pi] == "ids" {
+					inner.env[n] = sym{kind: "len", idx: pi}
+					continue
+				}
+			}
+		}
+		if fl, ok := arg.(*ast.FuncLit); ok {
+			pi, ok := c.accessorOf(fl)
+			if !ok {
+				fail(c.p, arg, "function literal is not an index accessor of an id-list parameter")
+			}
+			inner.env[n] = sym{kind: "acc", idx: pi}
+			continue
+		}
+		inner.env[n] = sym{kind: "str", text: c.strExpr(arg)}
+	}
+	inner.stmts(fd.Body.List)
+	if inner.hret == "" {
+		fail(c.p, x, "helper %s: no returned string recognised", fd.Name.Name)
+	}
+	return inner.hret, true
+}
+
+// accessorOf recognises  func(i int) int64 { return int64(ids[i]) }  for an id-list parameter ids
+func (c *ctx) accessorOf(fl *ast.FuncLit) (int, bool) {
+	if len(fl.Type.Params.List) != 1 || len(fl.Type.Params.List[0].Names) != 1 || len(fl.Body.List) != 1 {
+		return 0, false
+	}
+	iname := fl.Type.Params.List[0].Names[0].Name
+	rs, ok := fl.Body.List[0].(*ast.ReturnStmt)
+	if !ok || len(rs.Results) != 1 {
+		return 0, false
+	}
+	return c.indexedID(rs.Results[0], iname)
+}
+
+// indexedID recognises  int64(ids[i])  (or ids[i] converted by a named int64 type)
+func (c *ctx) indexedID(e ast.Expr, iname string) (int, bool) {
+	if conv, ok := isFunc(e, "int64"); ok && len(conv.Args) == 1 {
+		e = conv.Args[0]
+	}
+	ie, ok := e.(*ast.IndexExpr)
+	if !ok {
+		return 0, false
+	}
+	arr, ok1 := ie.X.(*ast.Ident)
+	idx, ok2 := ie.Index.(*ast.Ident)
+	if !ok1 || !ok2 || idx.Name != iname {
+		return 0, false
+	}
+	pi, ok := c.params[arr.Name]
+	if !ok || c.pkinds[pi] != "ids" {
+		return 0, false
+	}
+	return pi, true
+}
+
+// nonEmpty recognises the ways of asking whether a string is non-empty and returns the string
+func (c *ctx) nonEmpty(e ast.Expr) (ast.Expr, bool) {
+	be, ok := e.(*ast.BinaryExpr)
+	if !ok {
+		return nil, false
+	}
+	isZero := func(e ast.Expr) bool { z, ok := c.constInt(e); return ok && z == "0" }
+	isEmpty := func(e ast.Expr) bool { s, ok := c.constString(e); return ok && s == "" }
+	if arg, ok := c.lenOf(be.X); ok && isZero(be.Y) && (be.Op == token.GTR || be.Op == token.NEQ) {
+		return arg, true
+	}
+	if arg, ok := c.lenOf(be.Y); ok && isZero(be.X) && (be.Op == token.LSS || be.Op == token.NEQ) {
+		return arg, true
+	}
+	if be.Op == token.NEQ && isEmpty(be.Y) {
+		return be.X, true
+	}
+	if be.Op == token.NEQ && isEmpty(be.X) {
+		return be.Y, true
+	}
+	return nil, false
+}
+
+// notFirst recognises the ways of asking whether the loop index i is past the first element
+func (c *ctx) notFirst(e ast.Expr, iname string) bool {
+	be, ok := e.(*ast.BinaryExpr)
+	if !ok {
+		return false
+	}
+	isI := func(e ast.Expr) bool { id, ok := e.(*ast.Ident); return ok && id.Name == iname }
+	is := func(e ast.Expr, v string) bool { z, ok := c.constInt(e); return ok && z == v }
+	switch {
+	case isI(be.X) && is(be.Y, "0"):
+		return be.Op == token.NEQ || be.Op == token.GTR
+	case isI(be.Y) && is(be.X, "0"):
+		return be.Op == token.NEQ || be.Op == token.LSS
+	case isI(be.X) && is(be.Y, "1"):
+		return be.Op == token.GEQ
+	case isI(be.Y) && is(be.X, "1"):
+		return be.Op == token.LEQ
+	}
+	return false
+}
+
+// idLoopBody recognises the body of the id-list loop
+//   if <i is not the first> { buf = append(buf, <separator byte>) }
+//   buf = strconv.AppendInt(buf, <the i-th id as int64>, 10)
+// and returns the buffer variable and the separator
+func (c *ctx) idLoopBody(x ast.Node, body []ast.Stmt, iname string, isID func(ast.Expr) bool) (string, string) {
+	if len(body) != 2 {
+		fail(c.p, x, "id loop shape")
+	}
+	is, ok := body[0].(*ast.IfStmt)
+	if !ok || is.Init != nil || is.Else != nil || len(is.Body.List) != 1 || !c.notFirst(is.Cond, iname) {
+		fail(c.p, x, "id loop: separator statement")
+	}
+	as, ok := is.Body.List[0].(*ast.AssignStmt)
+	if !ok || len(as.Lhs) != 1 || len(as.Rhs) != 1 {
+		fail(c.p, x, "id loop: separator append")
+	}
+	buf, _ := as.Lhs[0].(*ast.Ident)
+	ce, ok := isFunc(as.Rhs[0], "append")
+	if buf == nil || !ok || len(ce.Args) != 2 || c.env[buf.Name].kind != "bytes" {
+		fail(c.p, x, "id loop: separator append")
+	}
+	if a0, ok := ce.Args[0].(*ast.Ident); !ok || a0.Name != buf.Name {
+		fail(c.p, x, "id loop: separator append")
+	}
+	tv := c.p.Info.Types[ce.Args[1]]
+	if tv.Value == nil || tv.Value.Kind() != constant.Int {
+		fail(c.p, x, "id loop: separator is not a constant byte")
+	}
+	sepv, _ := constant.Int64Val(tv.Value)
+	if sepv < 32 || sepv > 126 {
+		fail(c.p, x, "id loop: separator byte out of range")
+	}
+	as2, ok := body[1].(*ast.AssignStmt)
+	if !ok || len(as2.Lhs) != 1 || len(as2.Rhs) != 1 {
+		fail(c.p, x, "id loop: AppendInt statement")
+	}
+	if l2, ok := as2.Lhs[0].(*ast.Ident); !ok || l2.Name != buf.Name {
+		fail(c.p, x, "id loop: AppendInt target")
+	}
+	ai, ok := isCall(as2.Rhs[0], "strconv", "AppendInt")
+	if !ok || len(ai.Args) != 3 {
+		fail(c.p, x, "id loop: AppendInt call")
+	}
+	if a0, ok := ai.Args[0].(*ast.Ident); !ok || a0.Name != buf.Name {
+		fail(c.p, x, "id loop: AppendInt buffer")
+	}
+	if !isID(ai.Args[1]) {
+		fail(c.p, x, "id loop: AppendInt value is not the current id")
+	}
+	if z, ok := c.constInt(ai.Args[2]); !ok || z != "10" {
+		fail(c.p, x, "id loop: base is not 10")
+	}
+	if c.env[buf.Name].text != "" {
+		fail(c.p, x, "id loop: buffer already filled")
+	}
+	return buf.Name, string(rune(sepv))
+}
+
+// forStmt recognises the index form of the id-list loop:  for i := 0; i < n; i++ { ... }
+// where n is len(ids) (directly or passed to a helper) and the id is ids[i] or an accessor of it
+func (c *ctx) forStmt(x *ast.ForStmt) {
+	init, ok := x.Init.(*ast.AssignStmt)
+	if !ok || init.Tok != token.DEFINE || len(init.Lhs) != 1 || len(init.Rhs) != 1 {
+		fail(c.p, x, "for loop: init is not i := 0")
+	}
+	iv, _ := init.Lhs[0].(*ast.Ident)
+	if z, ok := c.constInt(init.Rhs[0]); iv == nil || !ok || z != "0" {
+		fail(c.p, x, "for loop: init is not i := 0")
+	}
+	post, ok := x.Post.(*ast.IncDecStmt)
+	if !ok || post.Tok != token.INC || render(c.p, post.X) != iv.Name {
+		fail(c.p, x, "for loop: post statement is not i++")
+	}
+	cond, ok := x.Cond.(*ast.BinaryExpr)
+	if !ok {
+		fail(c.p, x, "for loop: condition")
+	}
+	bound := cond.Y
+	switch {
+	case cond.Op == token.LSS && render(c.p, cond.X) == iv.Name:
+	case cond.Op == token.GTR && render(c.p, cond.Y) == iv.Name:
+		bound = cond.X
+	default:
+		fail(c.p, x, "for loop: condition is not i < n")
+	}
+	pi := -1
+	if la, ok := c.lenOf(bound); ok {
+		if id, ok := la.(*ast.Ident); ok {
+			if k, ok := c.params[id.Name]; ok && c.pkinds[k] == "ids" {
+				pi = k
+			}
+		}
+	} else if id, ok := bound.(*ast.Ident); ok {
+		if v, ok := c.env[id.Name]; ok && v.kind == "len" {
+			pi = v.idx
+		}
+	}
+	if pi < 0 {
+		fail(c.p, x, "for loop: bound is not the length of an id-list parameter")
+	}
+	isID := func(e ast.Expr) bool {
+		if k, ok := c.indexedID(e, iv.Name); ok {
+			return k == pi
+		}
+		if ce, ok := e.(*ast.CallExpr); ok && len(ce.Args) == 1 && render(c.p, ce.Args[0]) == iv.Name {
+			if f, ok := ce.Fun.(*ast.Ident); ok {
+				if v, ok := c.env[f.Name]; ok && v.kind == "acc" {
+					return v.idx == pi
+				}
+			}
+		}
+		return false
+	}
+	buf, sep := c.idLoopBody(x, x.Body.List, iv.Name, isID)
+	c.env[buf] = sym{kind: "str", text: fmt.Sprintf("(EIdList %d %s)", pi, q(sep))}
 }
 
 // only the six numeric reference tokens and the literal characters - T : Z are understood
@@ -353,6 +644,8 @@ func (c *ctx) stmts(list []ast.Stmt) {
 			c.assign(x)
 		case *ast.RangeStmt:
 			c.rangeStmt(x)
+		case *ast.ForStmt:
+			c.forStmt(x)
 		case *ast.IfStmt:
 			c.ifStmt(x)
 		case *ast.ReturnStmt:
@@ -377,6 +670,14 @@ func (c *ctx) assign(x *ast.AssignStmt) {
 			}
 			c.env[x.Lhs[0].(*ast.Ident).Name] = sym{kind: "str", text: fmt.Sprintf("(EFeatureOpts %d)", i)}
 			return
+		}
+		if ce, ok := x.Rhs[0].(*ast.CallExpr); ok {
+			if l1, ok := x.Lhs[1].(*ast.Ident); ok && l1.Name == "err" {
+				if r, ok := c.inlineCall(ce); ok {
+					c.env[x.Lhs[0].(*ast.Ident).Name] = sym{kind: "str", text: r}
+					return
+				}
+			}
 		}
 		fail(c.p, x, "unsupported two-value assignment %s", render(c.p, x))
 	}
@@ -455,72 +756,22 @@ func (c *ctx) rangeStmt(x *ast.RangeStmt) {
 	case "ids":
 		// for i, id := range ids { if i != 0 { data = append(data, byte(',')) }; data = strconv.AppendInt(data, int64(id), 10) }
 		k, _ := x.Key.(*ast.Ident)
+		if k == nil {
+			fail(c.p, x, "id loop without an index variable")
+		}
 		v, _ := x.Value.(*ast.Ident)
-		if k == nil || v == nil || len(x.Body.List) != 2 {
-			fail(c.p, x, "id loop shape")
+		isID := func(e ast.Expr) bool {
+			if j, ok := c.indexedID(e, k.Name); ok {
+				return j == pi
+			}
+			if conv, ok := isFunc(e, "int64"); ok && len(conv.Args) == 1 && v != nil {
+				a1, ok := conv.Args[0].(*ast.Ident)
+				return ok && a1.Name == v.Name
+			}
+			return false
 		}
-		is, ok := x.Body.List[0].(*ast.IfStmt)
-		if !ok || is.Init != nil || is.Else != nil || len(is.Body.List) != 1 {
-			fail(c.p, x, "id loop: separator statement")
-		}
-		be, ok := is.Cond.(*ast.BinaryExpr)
-		if !ok || be.Op != token.NEQ {
-			fail(c.p, x, "id loop: separator condition")
-		}
-		if id, ok := be.X.(*ast.Ident); !ok || id.Name != k.Name {
-			fail(c.p, x, "id loop: separator condition")
-		}
-		if z, ok := c.constInt(be.Y); !ok || z != "0" {
-			fail(c.p, x, "id loop: separator condition is not i != 0")
-		}
-		as, ok := is.Body.List[0].(*ast.AssignStmt)
-		if !ok || len(as.Lhs) != 1 || len(as.Rhs) != 1 {
-			fail(c.p, x, "id loop: separator append")
-		}
-		buf, _ := as.Lhs[0].(*ast.Ident)
-		ce, ok := isFunc(as.Rhs[0], "append")
-		if buf == nil || !ok || len(ce.Args) != 2 || c.env[buf.Name].kind != "bytes" {
-			fail(c.p, x, "id loop: separator append")
-		}
-		if a0, ok := ce.Args[0].(*ast.Ident); !ok || a0.Name != buf.Name {
-			fail(c.p, x, "id loop: separator append")
-		}
-		tv := c.p.Info.Types[ce.Args[1]]
-		if tv.Value == nil || tv.Value.Kind() != constant.Int {
-			fail(c.p, x, "id loop: separator is not a constant byte")
-		}
-		sepv, _ := constant.Int64Val(tv.Value)
-		if sepv < 32 || sepv > 126 {
-			fail(c.p, x, "id loop: separator byte out of range")
-		}
-		as2, ok := x.Body.List[1].(*ast.AssignStmt)
-		if !ok || len(as2.Lhs) != 1 || len(as2.Rhs) != 1 {
-			fail(c.p, x, "id loop: AppendInt statement")
-		}
-		if l2, ok := as2.Lhs[0].(*ast.Ident); !ok || l2.Name != buf.Name {
-			fail(c.p, x, "id loop: AppendInt target")
-		}
-		ai, ok := isCall(as2.Rhs[0], "strconv", "AppendInt")
-		if !ok || len(ai.Args) != 3 {
-			fail(c.p, x, "id loop: AppendInt call")
-		}
-		if a0, ok := ai.Args[0].(*ast.Ident); !ok || a0.Name != buf.Name {
-			fail(c.p, x, "id loop: AppendInt buffer")
-		}
-		conv, ok := isFunc(ai.Args[1], "int64")
-		if !ok || len(conv.Args) != 1 {
-			fail(c.p, x, "id loop: AppendInt value")
-		}
-		if a1, ok := conv.Args[0].(*ast.Ident); !ok || a1.Name != v.Name {
-			fail(c.p, x, "id loop: AppendInt value is not the loop variable")
-		}
-		if z, ok := c.constInt(ai.Args[2]); !ok || z != "10" {
-			fail(c.p, x, "id loop: base is not 10")
-		}
-		if c.env[buf.Name].text != "" {
-			fail(c.p, x, "id loop: buffer already filled")
-		}
-		c.env[buf.Name] = sym{kind: "str", text: fmt.Sprintf("(EIdList %d %s)", pi, q(string(rune(sepv))))}
+		buf, sep := c.idLoopBody(x, x.Body.List, k.Name, isID)
+		c.env[buf] = sym{kind: "str", text: fmt.Sprintf("(EIdList %d %s)", pi, q(sep))}
 	case "nopts":
 		// for _, o := range opts { params, err = o.applyNotes(params); if err != nil { return nil, err } }
 		v, _ := x.Value.(*ast.Ident)
@@ -616,10 +867,10 @@ func (c *ctx) ifStmt(x *ast.IfStmt) {
 			}
 		}
 	}
-	// if len(params) > 0 { url += "&" + params }
-	if be, ok := x.Cond.(*ast.BinaryExpr); ok && be.Op == token.GTR && x.Else == nil {
-		if arg, ok := c.lenOf(be.X); ok {
-			if z, ok := c.constInt(be.Y); ok && z == "0" {
+	// if len(params) > 0 { url += "&" + params }   (or params != "", len(params) != 0, ...)
+	if x.Else == nil {
+		if arg, ok := c.nonEmpty(x.Cond); ok {
+			{
 				cond := c.strExpr(arg)
 				saved := map[string]sym{}
 				for k, v := range c.env {
@@ -650,6 +901,19 @@ func (c *ctx) ifStmt(x *ast.IfStmt) {
 }
 
 func (c *ctx) returnStmt(x *ast.ReturnStmt) {
+	if c.helper {
+		// return <string>   or   return <string>, nil
+		if len(x.Results) == 2 {
+			if id, ok := x.Results[1].(*ast.Ident); !ok || id.Name != "nil" {
+				fail(c.p, x, "helper returns a non-nil error on its normal path")
+			}
+		} else if len(x.Results) != 1 {
+			fail(c.p, x, "helper return arity")
+		}
+		c.hret = c.strExpr(x.Results[0])
+		c.ret = "helper"
+		return
+	}
 	// return ds.helper(ctx, url): inline the helper
 	if len(x.Results) == 1 {
 		if ce, ok := x.Results[0].(*ast.CallExpr); ok {
@@ -1055,7 +1319,7 @@ func translateGetFromAPI(p *tr.Pkg, decls map[string]*ast.FuncDecl) apiInfo {
 		}
 		return be.Op, tv.Value.ExactString(), true
 	}
-	sawOther := false
+	sawOther, sawSwitch, decodeInCase := false, false, false
 	for _, s := range fd.Body.List {
 		switch x := s.(type) {
 		case *ast.IfStmt:
@@ -1132,6 +1396,22 @@ func translateGetFromAPI(p *tr.Pkg, decls map[string]*ast.FuncDecl) apiInfo {
 						body = nil
 					}
 				}
+				if len(body) == 1 && cc.List != nil {
+					if rs, ok := body[0].(*ast.ReturnStmt); ok && strings.Contains(render(p, rs), "xml.NewDecoder(resp.Body).Decode(item)") {
+						// case http.StatusOK: return xml.NewDecoder(resp.Body).Decode(item)
+						if len(cc.List) != 1 || a.okCode != "" {
+							fail(p, cc, "getFromAPI: the decoding case must be the single success status")
+						}
+						tv := p.Info.Types[cc.List[0]]
+						if tv.Value == nil || tv.Value.Kind() != constant.Int {
+							fail(p, cc, "getFromAPI: non-constant status case")
+						}
+						a.okCode = tv.Value.ExactString()
+						a.decodes = true
+						decodeInCase = true
+						continue
+					}
+				}
 				if cc.List == nil { // default
 					if len(body) != 1 {
 						fail(p, cc, "getFromAPI: default case does not return")
@@ -1164,9 +1444,14 @@ func translateGetFromAPI(p *tr.Pkg, decls map[string]*ast.FuncDecl) apiInfo {
 					a.rules = append(a.rules, [2]string{code, retType(rs)})
 				}
 			}
-			if !sawOther || a.okCode == "" {
-				fail(p, x, "getFromAPI: status switch without a success case and a default")
+			if a.okCode == "" {
+				fail(p, x, "getFromAPI: status switch without a success case")
 			}
+			if !sawOther && !decodeInCase {
+				// success falls out of the switch: the catch-all must be inside it
+				fail(p, x, "getFromAPI: status switch without a default")
+			}
+			sawSwitch = true
 		case *ast.AssignStmt:
 			ast.Inspect(x, func(n ast.Node) bool {
 				if ce, ok := n.(*ast.CallExpr); ok {
@@ -1188,6 +1473,15 @@ func translateGetFromAPI(p *tr.Pkg, decls map[string]*ast.FuncDecl) apiInfo {
 			})
 		case *ast.DeferStmt:
 		case *ast.ReturnStmt:
+			if decodeInCase {
+				// every status without a case falls out of the switch: the catch-all
+				if t := retType(x); t != "" && !sawOther && sawSwitch {
+					a.otherType = t
+					sawOther = true
+					continue
+				}
+				fail(p, x, "getFromAPI: statement after a switch that already decodes")
+			}
 			if !sawOther {
 				fail(p, x, "getFromAPI: decode without a non-OK catch-all before it")
 			}
@@ -1198,6 +1492,9 @@ func translateGetFromAPI(p *tr.Pkg, decls map[string]*ast.FuncDecl) apiInfo {
 		default:
 			fail(p, s, "getFromAPI: unsupported statement")
 		}
+	}
+	if !sawOther {
+		fail(p, fd, "getFromAPI: no catch-all for the other statuses")
 	}
 	if doPos == token.NoPos || a.httpMethod == "" || !a.decodes {
 		fail(p, fd, "getFromAPI: request / decode not recognised")
@@ -1214,18 +1511,20 @@ func translateNotFound(p *tr.Pkg, decls map[string]*ast.FuncDecl) string {
 	if fd == nil {
 		fail(p, nil, "NotFound not found")
 	}
-	// [if err == nil { return false }]  _, ok := err.(*T); return ok
-	typ := ""
+	pname := fd.Type.Params.List[0].Names[0].Name
+	// [if err == nil { return false }]  _, ok := err.(*T); return ok      or   return ok form inlined
+	typ, okVar := "", ""
 	n := 0
 	for _, s := range fd.Body.List {
 		switch x := s.(type) {
 		case *ast.IfStmt:
-			if render(p, x.Cond) != "err == nil" || len(x.Body.List) != 1 || render(p, x.Body.List[0]) != "return false" {
+			// a nil error is not a *T anyway: the guard is optional
+			if render(p, x.Cond) != pname+" == nil" || len(x.Body.List) != 1 || render(p, x.Body.List[0]) != "return false" || x.Else != nil || x.Init != nil {
 				fail(p, x, "NotFound: unsupported if")
 			}
 		case *ast.AssignStmt:
 			ta, ok := x.Rhs[0].(*ast.TypeAssertExpr)
-			if !ok || render(p, ta.X) != "err" || len(x.Lhs) != 2 || render(p, x.Lhs[1]) != "ok" {
+			if !ok || render(p, ta.X) != pname || len(x.Lhs) != 2 || render(p, x.Lhs[0]) != "_" {
 				fail(p, x, "NotFound: unsupported assignment")
 			}
 			st, ok := ta.Type.(*ast.StarExpr)
@@ -1233,9 +1532,10 @@ func translateNotFound(p *tr.Pkg, decls map[string]*ast.FuncDecl) string {
 				fail(p, x, "NotFound: assertion to a non-pointer type")
 			}
 			typ = st.X.(*ast.Ident).Name
+			okVar = render(p, x.Lhs[1])
 			n++
 		case *ast.ReturnStmt:
-			if render(p, x) != "return ok" {
+			if okVar == "" || render(p, x) != "return "+okVar {
 				fail(p, x, "NotFound: unsupported return")
 			}
 		default:
@@ -1248,16 +1548,19 @@ func translateNotFound(p *tr.Pkg, decls map[string]*ast.FuncDecl) string {
 	return typ
 }
 
+// baseURL: the configured base, or the package default when none is configured
 func translateBaseURL(p *tr.Pkg, decls map[string]*ast.FuncDecl) {
 	fd := decls["Datasource.baseURL"]
 	if fd == nil || len(fd.Body.List) != 2 {
 		fail(p, nil, "baseURL: shape")
 	}
-	if render(p, fd.Body.List[0]) != "if ds.BaseURL != \"\" {\n\t\treturn ds.BaseURL\n\t}" && strings.Join(strings.Fields(render(p, fd.Body.List[0])), " ") != "if ds.BaseURL != \"\" { return ds.BaseURL }" {
-		fail(p, fd, "baseURL: first statement")
-	}
-	if render(p, fd.Body.List[1]) != "return BaseURL" {
-		fail(p, fd, "baseURL: default")
+	first := strings.Join(strings.Fields(render(p, fd.Body.List[0])), " ")
+	second := render(p, fd.Body.List[1])
+	switch {
+	case (first == `if ds.BaseURL != "" { return ds.BaseURL }` || first == `if "" != ds.BaseURL { return ds.BaseURL }` || first == `if len(ds.BaseURL) > 0 { return ds.BaseURL }` || first == `if len(ds.BaseURL) != 0 { return ds.BaseURL }`) && second == "return BaseURL":
+	case (first == `if ds.BaseURL == "" { return BaseURL }` || first == `if "" == ds.BaseURL { return BaseURL }` || first == `if len(ds.BaseURL) == 0 { return BaseURL }`) && second == "return ds.BaseURL":
+	default:
+		fail(p, fd, "baseURL: neither 'configured, else default' form")
 	}
 }
 
